@@ -93,9 +93,9 @@ def check(ctx):
                          'S-%s%d' % (tag, k), dl + 600))
     if quick:
         # quick box: 2DBC -> 2DBC with matrix sizes <= 5; the eight pairs involving SBC descriptors with sizes <= 4
-        shards('a', 3, ['--maxm', '5', '--ydist', 'bc', '--tdist', 'bc'], 60)
-        shards('b', 2, ['--maxm', '4', '--ydist', ALLD, '--tdist', ALLD, '--skip', 'bc-to-bc,' + SS], 60)
-        shards('c', 1, ['--maxm', '4', '--ydist', 'sbcL,sbcU', '--tdist', 'sbcL,sbcU'], 60)
+        shards('a', 5, ['--maxm', '5', '--ydist', 'bc', '--tdist', 'bc'], 65)
+        shards('b', 2, ['--maxm', '4', '--ydist', ALLD, '--tdist', ALLD, '--skip', 'bc-to-bc,' + SS], 65)
+        shards('c', 1, ['--maxm', '4', '--ydist', 'sbcL,sbcU', '--tdist', 'sbcL,sbcU'], 65)
     else:
         # thorough box: every distribution pair with sizes <= 6x6; k-cyclic columns (kq 2 on either side) for 2DBC -> 2DBC with sizes <= 5x5
         shards('a', 4, ['--maxm', '6', '--ydist', 'bc', '--tdist', 'bc'], 750)
